@@ -777,8 +777,8 @@ def c15(ctx):
 def gen_doc(rng, big=False):
     """Well-formed DSL dictionary with optional sections in random combination, layout variants, init_state."""
     if big and rng.random() < 0.4:
-        d, feats = gen.gen_instance(rng, rng.choice(["classic", "transport", "buffers", "full"]),
-                                    nj=rng.randint(5, 12), nm=rng.randint(4, 12))
+        d, feats = gen.gen_instance(rng, rng.choice(["classic", "transport", "buffers", "full", "full", "full"]),
+                                    nj=rng.choice([5, 8, 11, 12, 13]), nm=rng.randint(4, 12))
     else:
         d, feats = gen.gen_instance(rng, rng.choice(["classic", "transport", "buffers", "full", "full"]),
                                     nj=rng.choice([1, 2, 2, 3, 4]))
@@ -983,6 +983,20 @@ def _direct_compile_oracles(d, inst, st):
     if dup:
         vs.append({"kind": "ids:duplicate_state", "detail": "compiled initial state has duplicate identifiers %s" % dup[:4],
                    "replay": {"dsl": d}, "facts": {"n": len(dup)}})
+    # tools: operation k of job N uses the k-th tool written in the tool_usage entry that names jN (C16)
+    tu = d["instance_config"].get("instance", {}).get("tool_usage")
+    if tu:
+        try:
+            jobs = {int(j.id.split("-")[1]): j for j in inst.instance.specification}
+            for e in tu:
+                num = int(str(e["job"]).strip().lstrip("j").lstrip("-"))
+                got = [o.tool for o in jobs[num].operations]
+                if got != list(e["operation_tools"]):
+                    vs.append({"kind": "tools:not_as_written", "detail": "job j-%d is written with tools %s but compiled with %s"
+                               % (num, e["operation_tools"], got), "replay": {"dsl": d}, "facts": {"njobs": len(jobs)}})
+                    break
+        except Exception:  # noqa
+            pass
     lg = d["instance_config"].get("logistics")
     if not lg:
         # documented default: no logistics section = zero travel time between all machines and standalone buffers
@@ -1105,6 +1119,11 @@ def c09_compile_stage(ctx):
     ctx.coverage["setup_matrices_documents_checked"] = checked
 
 
+def _has_stochastic(d):
+    txt = json.dumps(d)
+    return "time_behavior" in txt and any(w in txt for w in ("uni", "gauss", "normal", "poisson", "gamma"))
+
+
 def _dsl_worker(args):
     seed, n, big, prop = args
     import dsl_tok
@@ -1127,9 +1146,21 @@ def _dsl_worker(args):
         if "init_state" in d:
             out["sections"]["init_state"] += 1
         try:
-            inst, st = jsl.compile_dict(d, cfg)
+            comp = jsl.make_compiler(d, cfg)
+            inst, st = comp.compile()
             for v in _direct_compile_oracles(d, inst, st) + setup_matrix_oracle(d, inst) + time_behavior_oracle(d, inst):
                 out["violations"].append(v)
+            if prop == "C17" and k % 3 == 0 and not _has_stochastic(d):
+                # "compiling the same text again gives an equal instance and initial state": also when the SAME
+                # Compiler object compiles again (the environment compiles on every reset)
+                inst2, st2 = comp.compile()
+                out["recompiled"] = out.get("recompiled", 0) + 1
+                if inst2 != inst or st2 != st:
+                    diff = [f for f in ("machines", "transports", "buffers", "outages", "instance", "logistics")
+                            if getattr(inst, f, None) != getattr(inst2, f, None)]
+                    out["violations"].append({"kind": "determinism:recompile", "detail": "the same Compiler object compiles the "
+                                              "same document to a different result the second time (differs in %s, state equal: %s)"
+                                              % (diff, st2 == st), "replay": {"dsl": d}, "facts": {"fields": diff}})
             c = jsl.Codec(inst, True)
             impl = "(ok %s %s %s)" % (c.inst_sx, c.state(st), c.labels_sx())
         except jsl.Unsupported as e:
@@ -1232,6 +1263,7 @@ def _dsl_check(ctx, prop):
     for o in outs:
         for k in ("docs", "agree", "unsupported", "malformed", "init_checked"):
             tot[k] += o[k]
+        tot["recompiled"] += o.get("recompiled", 0)
         for k in agg:
             agg[k].update(o[k])
         ctx.violations.extend(o["violations"])
@@ -1240,6 +1272,8 @@ def _dsl_check(ctx, prop):
             ctx.coverage.setdefault("disagreement_samples", []).append(dd["replay"])
         ctx.samples.extend(o["samples"][:1])
         hash_docs.extend(o["docs_for_hash"])
+    if prop == "C17":
+        ctx.coverage["documents_compiled_twice_by_one_compiler"] = tot["recompiled"]
     ctx.coverage.update({
         "evaluations": tot["docs"] + tot["malformed"], "distinct_nontrivial": tot["docs"] + tot["malformed"],
         "rule": "one evaluation = one document compiled by the real Compiler (validator + mappers): well-formed documents "
@@ -1331,7 +1365,7 @@ def c16(ctx):
 def c17(ctx):
     docs = _dsl_check(ctx, "C17")
     ctx.violations = [v for v in ctx.violations if v["kind"].startswith("init:") or v["kind"].startswith("ids:")
-                      or v["kind"] == "compile:wellformed_rejected"]
+                      or v["kind"].startswith("determinism:") or v["kind"] == "compile:wellformed_rejected"]
     # same text, other interpreter processes with different string hashing
     docs = docs[: (16 if ctx.quick() else 80)]
     seeds = [0, 1, 4242, 31337] if ctx.quick() else [0, 1, 2, 3, 17, 4242, 31337, 99991]
